@@ -150,6 +150,8 @@ class Path:
         self.pc = []
         self.solver = z3.Solver()
         self.solver.set("timeout", engine.feas_timeout_ms)
+        # z3's sequence solver does not always honour the wall-clock timeout; the resource limit is checked more reliably
+        self.solver.set("rlimit", engine.feas_rlimit)
         self.heap = {}
         self.next_ref = 1
         self.counter = {}
